@@ -465,6 +465,17 @@ class Interp:
             return
         # ControlUndecided: the statement-level opaque fallback must not swallow this (the jump would silently disappear)
         if in_loop:
+            # search loop: `for x in xs { if p(x) { return CONST } }` — the loop leaves the function with a constant truth value at the
+            # first element satisfying p; recorded on the loop and turned into a quantifier when the loop has been summarised
+            lc = self.loops[-1]
+            if len(self.loops) == fr["loops"] + 1 and isinstance(value, Cond) and value.kind == "const":
+                full = c
+                for oc in reversed(self.cond_stack[getattr(lc, "cond_base", 0):]):
+                    full = cond_and(oc, full)
+                if not hasattr(lc, "search_exits"):
+                    lc.search_exits = []
+                lc.search_exits.append((full, value))
+                return
             raise ControlUndecided("value-returning early exit inside a summarised loop of %s (condition %s)" % (fr["path"], c.key()[:80]))
         if nested:
             raise ControlUndecided("value-returning early exit nested in another conditional of %s (condition %s)" % (fr["path"], c.key()[:80]))
@@ -1244,6 +1255,22 @@ class Interp:
             self.class_of_index = old
             for vid, (cur, _ph) in acc_vars.items():
                 env.set(vid, cur)
+        exits = getattr(lc, "search_exits", None)
+        if exits:
+            if lc.effects or len(set(v_.data for _c, v_ in exits)) != 1 or guards:
+                raise Undecided("search loop with effects / mixed results / a restricted range")
+            cond = exits[0][0]
+            for c_, _v in exits[1:]:
+                cond = cond_or(cond, c_)
+            d_ = getattr(self, "quant_depth", 0)
+            dummy = "§s%d" % d_
+            from .expr import cond_subst
+            qtree = ("exists", dummy, cls, _tree_subst(cond.tree, {k: dummy}))
+            q = Cond("key", "∃%s∈%s: (%s)" % (dummy, cls, cond_subst(cond.key(), {k: dummy})), tree=qtree)
+            for vid, (cur, _ph) in acc_vars.items():
+                pass
+            self.note_early(q, exits[0][1])
+            return
         if acc_vars:
             from .models import fold_combine
             for vid, (cur, ph) in acc_vars.items():
@@ -1337,6 +1364,13 @@ class Interp:
                 raise Undecided("scalar effect with residual binders")
             if op in ("+", "-"):
                 contrib = val.expr.guarded(gs).sum_over(k, cls)
+                # Σ_k ite(c[k] ? 1 : 0) is the number of elements satisfying c: the canonical form of `filter(c).count()`
+                ts = val.expr.simplified().terms
+                if not gs and len(ts) == 1 and ts[0].coeff == 1 and not ts[0].binders and not ts[0].guards and len(ts[0].atoms) == 1:
+                    (a_, e_) = ts[0].atoms[0]
+                    if e_ == 1 and a_[0] == "ite" and len(a_) == 4 and isinstance(a_[1], str) and a_[2] == Expr.const(1) and a_[3] == Expr.zero() \
+                            and ("«%s»" % k) in a_[1]:
+                        contrib = Expr.atom(("call", "count", "{§∈%s | %s}" % (cls, a_[1].replace("«%s»" % k, "«§»"))))
                 new = cur.expr + contrib if op == "+" else cur.expr - contrib
                 self.update(var, path, "=", Num(new), env, summarised=True)
                 return
@@ -1694,11 +1728,30 @@ def merge_vals(c, a, b):
     raise Undecided("merging %r and %r under a condition" % (a, b))
 
 
+def _tree_subst(t, m):
+    """Rename index entities inside a condition tree (keys are strings with «entity» markers, Expr keys are strings too)."""
+    from .expr import cond_subst
+    if isinstance(t, tuple):
+        return tuple(_tree_subst(x, m) for x in t)
+    if isinstance(t, str):
+        out = cond_subst(t, m)
+        for kk, vv in m.items():
+            out = out.replace("[%s]" % kk, "[%s]" % vv).replace("[%s," % kk, "[%s," % vv).replace(",%s]" % kk, ",%s]" % vv)
+        return out
+    return t
+
+
 def cond_and(a, b):
+    for x, y in ((a, b), (b, a)):
+        if x.kind == "const":
+            return y if x.data else Cond("const", False)
     return Cond("key", "(%s && %s)" % (a.key(), b.key()), tree=("and", a.tree, b.tree))
 
 
 def cond_or(a, b):
+    for x, y in ((a, b), (b, a)):
+        if x.kind == "const":
+            return Cond("const", True) if x.data else y
     return Cond("key", "(%s || %s)" % (a.key(), b.key()), tree=("or", a.tree, b.tree))
 
 
